@@ -20,11 +20,36 @@ TRUSTED = ["argparse, the OS pipe, codecs file writing", "in-process reference s
 ASSUMES = ["N >= 1"]
 
 
+def file_language(rs, lower):
+    """The Prince language straight from the RULESET FILES (not from the loaded tables): every value of every list named by a
+    line of Prince/grammar.txt, A<n> words under every mask of C<n> (as typed under --all_lower)."""
+    import re
+    out = []
+    for struct, _ in rs["prince"]:
+        toks = re.findall(r"[A-Z][0-9]+", struct)
+        if len(toks) != 1 or toks[0] not in rs["files"]:
+            return None
+        t = toks[0]
+        vals = [v for v, _ in rs["files"][t]]
+        if t[0] == "A":
+            masks = [m for m, _ in rs["files"].get("C" + t[1:], [])]
+            if lower:
+                masks = ["L" * int(t[1:])]
+            if not masks:
+                return None
+            for w in vals:
+                for m in masks:
+                    out.append("".join(c if mc == "L" else c.upper() for c, mc in zip(w, m)))
+        else:
+            out += vals
+    return out
+
+
 def long_list(ctx, code, env, sc, dist):
     """A wordlist of several thousand words (more than any plausible output buffer): the file written with -o is byte for
-    byte what goes to standard output, unbounded and with --size just above 4096 / 8192."""
+    byte what goes to standard output, unbounded and with --size just above 4096 / 8192 / 10000 / 20000 (the list is longer than 20000 words)."""
     vio = []
-    n = ctx.scale(9000, 20000)
+    n = ctx.scale(25000, 70000)
     vals = ["%05d" % i for i in range(n)]
     groups, lines, i = [], [], 0
     while i < n:
@@ -46,7 +71,7 @@ def long_list(ctx, code, env, sc, dist):
     if sorted(ref_lines) != sorted(v.encode() for v in vals):
         vio.append({"sig": "C17:content", "what": "the unbounded list of a %d-word Prince grammar has %d lines" % (n, len(ref_lines)),
                     "replay": {"ruleset": "long-list", "n": None, "file": False}})
-    for size in (None, 4097, 8193, 4096):
+    for size in (None, 4097, 8193, 10001, 20001, 10000):
         fn = os.path.join(code, "out_long_%s.txt" % size)
         rc, out, err = common.run_cli(base + ["-o", fn] + (["-s", str(size)] if size else []), code, env, 300)
         data = open(fn, "rb").read() if os.path.exists(fn) else b"<no file>"
@@ -118,6 +143,18 @@ def run(ctx):
                         "what": "unbounded wordlist is not the Prince language once each: missing %r, repeated %r"
                                 % (list((cw - cr).elements())[:3], list((cr - cw).elements())[:3]),
                         "replay": {"ruleset": rs, "all_lower": lower, "n": None, "file": False}})
+        flang = file_language(rs, lower)
+        if flang is not None:
+            dist["file_language_checks"] = dist.get("file_language_checks", 0) + 1
+            if any(v[:1] == "#" or v.strip() != v for v in flang):
+                dist["file_language_with_hash_or_blank_edged_words"] = dist.get("file_language_with_hash_or_blank_edged_words", 0) + 1
+            if sorted(flang) != sorted(ref):
+                from collections import Counter
+                cw, cr = Counter(flang), Counter(ref)
+                vio.append({"sig": "C17:missing:file" if (cw - cr) else "C17:duplicated:file",
+                            "what": "unbounded wordlist is not the language of the ruleset FILES once each: missing %r, extra %r"
+                                    % (list((cw - cr).elements())[:3], list((cr - cw).elements())[:3]),
+                            "replay": {"ruleset": rs, "all_lower": lower, "n": None, "file": False}})
         rulesets.write_ruleset(rs, os.path.join(code, "Rules", name))
         refs[name] = (rs, lower, per_item, ref, probs)
         # in-process: the real wordlist loop with EVERY size 1 .. total+1 (capped)
@@ -236,7 +273,7 @@ def run(ctx):
     rule = ("generated rulesets (Prince/grammar.txt over all their labels, ties), prince_ling.py as a subprocess with and without -o (every second -o file exists already and is longer) and "
             "--all_lower, unbounded and with --size N for N = 1, total, total+3, b-1/b/b+1 around group boundaries and strictly inside "
             "groups of equally probable words; output compared byte-wise with the in-process reference; non-trivial = N strictly inside a "
-            "group; distinct by (ruleset, N); plus one list of ~9000 words to stdout and to -o files (unbounded, --size 4096/4097/8193)")
+            "group; distinct by (ruleset, N); plus one list of 25000+ words to stdout and to -o files (unbounded, --size 4096/4097/8193/10000/10001/20001); the language also recomputed from the ruleset files")
     # second tie to the source (translator): name the broken equality if the build lost ExpandGenProofs
     import expand_tie
     corr.append(expand_tie.obligation())
@@ -265,6 +302,10 @@ def replay(ctx, data):
     n = inp.get("n")
     _, got, _ = common.run_cli(base + (["-s", str(n)] if n else []), code, env, 120)
     fl, gl = full.split(b"\n")[:-1], got.split(b"\n")[:-1]
+    flang = file_language(rs, bool(inp.get("all_lower")))
+    if not n and flang is not None and sorted(v.encode(rs.get("encoding", "utf-8")) for v in flang) != sorted(fl):
+        return [{"sig": "C17:missing:file", "what": "the unbounded list (%d words) is not the language of the ruleset files (%d words) once each"
+                 % (len(fl), len(flang)), "replay": inp}]
     if n and len(gl) > n:
         return [{"sig": "C17:overshoot", "what": "--size %d produced %d words" % (n, len(gl)), "replay": inp}]
     if gl != (fl[:n] if n else fl):
